@@ -285,16 +285,17 @@ def resend (d : Dest) : Option (List Out) :=
 
 def idleCloseAt (s : Sess) (d : Dest) : Int := (min d.lastRead d.lastWrite) + s.idle
 
+/-- one step of `closeOldestConn`'s scan: keep the entry whose idle deadline is earlier (a tie is
+decided by map order: flagged) -/
+def pickOlder (s : Sess) (acc : Dest × Bool) (x : Dest) : Dest × Bool :=
+  if idleCloseAt s x < idleCloseAt s acc.1 then (x, false)
+  else if idleCloseAt s x = idleCloseAt s acc.1 then (acc.1, true) else acc
+
 /-- `closeOldestConn`: the destination whose idle deadline is earliest -/
 def oldest (s : Sess) : Option Dest × Bool :=
   match s.dests with
   | [] => (none, false)
-  | d :: rest =>
-    rest.foldl (fun (acc : Option Dest × Bool) x => match acc.1 with
-      | none => (some x, false)
-      | some a =>
-        if idleCloseAt s x < idleCloseAt s a then (some x, false)
-        else if idleCloseAt s x = idleCloseAt s a then (some a, true) else acc) (some d, false)
+  | d :: rest => let r := rest.foldl (pickOlder s) (d, false); (some r.1, r.2)
 
 /-- take the destination from the cache, or connect and shake hands (nothing reaches the miner) -/
 def acquire (s : Sess) (pool : String) (p : PoolCfg) (user : String) : Sess × Dest × List Out :=
